@@ -77,6 +77,9 @@ class JaTree(SymTree):
             return Z(RAWW(T.ltag(self.e)))
         if name == 'op_symbol':
             return FieldStr(OP_SYMBOL(tag(self.e)))
+        if name == 'cat':
+            from contracts.readers import CatField
+            return CatField(I, tag(self.e))
         v = SymTree.getattr(self, I, name, node)
         if isinstance(v, SymTree) and not isinstance(v, JaTree):
             return JaTree(v.e)
